@@ -3,7 +3,10 @@
 Targets (called trainer-free, see DESIGN 2.5):
   rl4co.models.rl.reinforce.reinforce.REINFORCE.shared_step / calculate_loss with every bundled baseline
   (rl4co.models.rl.reinforce.baselines), rl4co.models.rl.a2c.a2c.A2C, rl4co.models.zoo.pomo.model.POMO,
-  rl4co.models.zoo.symnco.model.SymNCO (+ symnco.losses), rl4co.models.rl.ppo.ppo.PPO.shared_step.
+  rl4co.models.zoo.symnco.model.SymNCO (+ symnco.losses), rl4co.models.rl.ppo.ppo.PPO.shared_step,
+  rl4co.models.rl.ppo.stepwise_ppo.StepwisePPO (through zoo.l2d.L2DPPOModel on FJSP/JSSP) and
+  rl4co.models.rl.ppo.n_step_ppo.n_step_PPO (through zoo DACT / NeuOpt / N2S on tsp_kopt / pdp_ruin_repair); the
+  executors and formulas of the last two live in vf/c16_ppo_variants.py.
 
 Oracle: the surrogate written from the property / docstrings and evaluated on the *same* rollout tensors
 (reward, log-likelihood with its graph, captured from the policy's forward with a forward hook):
@@ -17,6 +20,15 @@ Oracle: the surrogate written from the property / docstrings and evaluated on th
       axis 1 / axis -1 of the library's own [batch, ., .] regrouping (explicit index arithmetic here).
   PPO (per inner step)        L = -mean(min(rho*A, clip(rho,1-eps,1+eps)*A)) + vf_lambda*Huber(V,R) - entropy_lambda*mean(H)
       rho = exp(sum_t ll_t - ll_old), A = R - V.detach(), optionally (A-mean A)/(std A + 1e-8)   [ppo.py]
+  StepwisePPO (per mini-batch of buffered transitions)
+                              L = -mean(min(rho*A, clip(rho)*A)) + vf_lambda*mean((V-r)^2) - entropy_lambda*mean(H)
+      rho = exp(logp(a|s) - logp_old), A = r - V(s).detach(), r = stored step reward (/ int reward_scale); logp and H
+      are also recomputed in float64 from the actor's captured logits / mask / stored action   [stepwise_ppo.py]
+  n_step_PPO (per segment of n_step env steps, inner epoch k)
+                              L = -mean(min(rho*A, clip(rho)*A)) + vf_lambda*L_V            (no entropy coefficient)
+      G_i = r_i + gamma*G_{i+1}, G_n = V(s_n).detach(); rho = exp(ll - ll_old.detach()); A = G - V.detach(), optionally
+      standardised; L_V = mean((V-G)^2) (k = 0), mean(max((V-G)^2, (V_old + clip(V-V_old, +-eps) - G)^2)) (k > 0);
+      r_i = decrease of the best-so-far cost, states of re-evaluation / bootstrap tied to the rollout [n_step_ppo.py]
 
 Asserted: (1) loss values equal (float64 reference, tolerance 2e-6 * sum of absolute term magnitudes; widened by
 the conditioning cond = max|adv|/std for the running-moment reward scalers (2(1+cond) + eps*(1+cond)^2/2e-6, cases
@@ -29,6 +41,13 @@ that *shares* the policy encoder the policy gradient changes as well if the valu
 that instance (tour-length oracle); (5) PPO: rho == 1 before the first optimiser step (256 ulp of 1+|ll|, ~3e-5 per
 unit of log-likelihood: float32 noise between the batched sampling pass and the mini-batch evaluation pass; the
 design's nominal 1e-5 is exceeded by rounding alone), number of inner steps = ppo_epochs * #mini-batches.
+The same five assertions hold for the two PPO variants: StepwisePPO rho == 1 on every inner step before the first
+parameter change of *each* update (policy_old is re-synchronised after an update; a mini-batch whose float32 evaluation
+error, measured against a float64 twin of the policy, exceeds a quarter of the tolerance is excluded: instance
+normalisation over 2 machines amplifies rounding by up to 1/sqrt(1e-5)); n_step_PPO rho == 1 in inner epoch 0 and, with
+dropout off and unchanged parameters, on every re-evaluation of the stored states/actions.  For both, the gradient
+resolution measurement perturbs the value target as well as the advantages (last-bit differences of V - target are
+amplified by the backward pass through the normalisation layers).
 
 Sub-check `rollout_eval` asserts the documented *greedy* rollout baseline through RolloutBaseline.eval; on the tree
 this was written against eval() runs the frozen policy with phase="train" (sampling) -> signature
@@ -42,6 +61,13 @@ fraction with int(B*f) == 0 -> DataLoader ValueError, and normalize_adv with a 1
 SymNCO regroups (n_start, n_aug) against the (s a b) layout, so for num_starts != num_augment the L_ps/L_ss groups mix
 starts and augmentations of one instance (still per-instance, hence unbiased); invariance_loss is returned with a
 positive sign (paper: L_inv = -cos-similarity) and regrouped (b a) (note O1).
+PPO variants: StepwisePPO.shared_step leaves `out` unbound (UnboundLocalError) whenever batch_idx % update_timestep != 0
+(only update_timestep=1 is used here); mini_batch_size > #buffered rows -> torchrl sampler ValueError; its returned
+"loss" is the stack of all inner losses, not a scalar; rows of already finished instances keep entering the buffer until
+the whole batch is done.  rl4co.models.nn.mlp.MLP keeps its nn.Dropout layers in a plain list, so the dropout hard-coded
+in the DACT decoder / improvement critics (p 0.05 / 0.01 / 0.001) is invisible to .modules() and stays active under
+.eval(); with it the PPO ratio of a re-evaluation differs from 1 by up to ~30 % with unchanged parameters.  n_step_PPO
+recomputes the bootstrap value V(s_n) in every inner epoch with the updated critic; it has no entropy term.
 """
 import copy
 import logging
@@ -51,6 +77,7 @@ import os
 import hypothesis.strategies as st
 import torch
 
+from .. import c16_ppo_variants as _ppov
 from ..runner import HarnessError, Sub
 
 PROPERTY = "C16"
@@ -62,8 +89,16 @@ RULE = (
     "None/int/'norm'/'scale', 1-4 successive steps on one model; POMO num_starts 2-6/None; SymNCO num_augment 2-4, "
     "num_starts 0/2-4, alpha/beta drawn; A2C; PPO ppo_epochs 1-2, minibatch full/fraction/int, normalize_adv, "
     "entropy_lambda 0/0.1, vf_lambda, clip_range drawn, no-op or perturbing fake optimiser; RolloutBaseline.eval. "
+    "stepwise_ppo: FJSP/JSSP 2-4 jobs x 2-3 machines (1-3 ops per job, one2one or free machine map, processing times "
+    "<= 5/20/99), B 2-6, L2DPolicy4PPO embed 16/32, 1-2 HGNN layers, instance/layer normalisation, mini_batch_size "
+    "between a quarter of and all guaranteed buffer rows, ppo_epochs 1-2, clip/vf_lambda/entropy_lambda "
+    "(0/0.01/0.1)/max_grad_norm/reward_scale None|int drawn, 1-2 successive updates on one model. nstep_ppo: DACT "
+    "(tsp_kopt k_max 2) / NeuOpt (k_max 3-4) n 5-8, N2S (pdp_ruin_repair) n 4/6/8, B 2-6, embed 16/32, 1-2 layers, "
+    "1/2/4 heads, layer/instance/batch normalisation, n_step 1-3, T_train = 1-2 segments, ppo_epochs 1-3, gamma "
+    "0.5..1, normalize_adv, curriculum steps 0-2 / CL_best, bundled dropout off (3/4) or on. "
     "Non-trivial = B >= 3 with non-constant rewards (and, for stateful baselines exponential/mean/warmup/scalers, "
-    ">= 2 successive steps); distinct = distinct case hash."
+    ">= 2 successive steps); stepwise_ppo: some mini-batch of >= 3 rows with non-constant step rewards; nstep_ppo: "
+    "some inner step with n_step*B >= 3 rows and non-constant n-step returns; distinct = distinct case hash."
 )
 ASSUMPTIONS = [
     "policy has no dropout / stochastic layers (verified per case); float32 forward is deterministic for a fixed seed",
@@ -74,6 +109,14 @@ ASSUMPTIONS = [
     "the mini-batch, so rho == 1 is not expected there); with normalize_adv every mini-batch has >= 2 rows",
     "PPO entropy H is the policy's own `entropy` output; advantage normalisation uses the unbiased std + 1e-8 as coded",
     "an explicit CriticNetwork is always supplied (note O4)",
+    "StepwisePPO: update_timestep = 1, default list-storage buffer (buffer_storage_device 'gpu' = no memmap/prefetch "
+    "threads), mini_batch_size <= number of buffered rows, integer or no reward scaling; the reward is the library's "
+    "immediate step reward (no reward-to-go) as coded; entropy H is compared with -sum p log p of the masked, "
+    "tanh-clipped actor logits (2e-5)",
+    "n_step_PPO: formulas as coded (bootstrap value recomputed per inner epoch, PPO2-style value clipping against the "
+    "values of inner epoch 0, unbiased std + 1e-8 for normalize_adv, no entropy term); the dropout layers that "
+    "rl4co.models.nn.mlp.MLP hides in a python list are set to p = 0 for 3 of 4 cases (re-evaluation ratio asserted "
+    "only there)",
 ]
 TIME_CAP = {"quick": 300, "thorough": 2400}
 
@@ -1061,4 +1104,9 @@ SUBS = [
         budget={"quick": 96, "thorough": 1200}, shards=8, shrink=False, minimize=_minimize, weight=2.0),
     Sub("rollout_eval", exec_rollout_eval, strategy=lambda tier: rollout_eval_cases(tier),
         budget={"quick": 16, "thorough": 200}, shards=2, shrink=False, minimize=_minimize),
+    # the two further bundled PPO implementations (vf/c16_ppo_variants.py)
+    Sub("stepwise_ppo", _ppov.exec_stepwise, strategy=lambda tier: _ppov.stepwise_cases(tier),
+        budget={"quick": 96, "thorough": 1200}, shards=8, shrink=False, minimize=_ppov.minimize_stepwise, weight=2.0),
+    Sub("nstep_ppo", _ppov.exec_nstep, strategy=lambda tier: _ppov.nstep_cases(tier),
+        budget={"quick": 96, "thorough": 1200}, shards=8, shrink=False, minimize=_ppov.minimize_nstep, weight=2.0),
 ]
